@@ -5,7 +5,6 @@ import (
 	"flag"
 	"fmt"
 	"math"
-	"os"
 	"reflect"
 	"strconv"
 	"strings"
@@ -50,10 +49,11 @@ type VContainer struct {
 
 // ValueCase is the case type of C06, C13 and C15.
 type ValueCase struct {
-	Cs       []VContainer `json:"containers"` // options first (at most 2), then at most one argument
-	OptsSpec int          `json:"opts_spec"`  // 0 [OPTIONS], 1 one optional repetition per option
-	ArgDD    bool         `json:"arg_dd"`     // argument part written "[-- X...]" (else "[X...]")
-	WriteDD  bool         `json:"write_dd"`   // an explicit -- precedes the argument tokens
+	EnvPrefix string       `json:"env_prefix,omitempty"`
+	Cs        []VContainer `json:"containers"` // options first (at most 2), then at most one argument
+	OptsSpec  int          `json:"opts_spec"`  // 0 [OPTIONS], 1 one optional repetition per option
+	ArgDD     bool         `json:"arg_dd"`     // argument part written "[-- X...]" (else "[X...]")
+	WriteDD   bool         `json:"write_dd"`   // an explicit -- precedes the argument tokens
 }
 
 func multi(typ int) bool { return typ >= TStrings }
@@ -186,20 +186,20 @@ type vHolder struct {
 	set *bool
 }
 
-func declareValue(app *cli.Cli, ci int, c *VContainer, nopt *int) vHolder {
+func declareValue(app *cli.Cli, ci int, c *VContainer, nopt *int, prefix string) vHolder {
 	var envNames []string
 	for ei, ev := range c.Env {
-		n := vEnvName(ci, ei)
+		n := prefix + vEnvName(ci, ei)
 		envNames = append(envNames, n)
 		if ev.Set {
-			os.Setenv(n, ev.Val)
+			setenv(n, ev.Val)
 		} else {
-			os.Unsetenv(n)
+			unsetenv(n)
 		}
 	}
 	defer func() {
 		for _, n := range envNames {
-			os.Unsetenv(n)
+			unsetenv(n)
 		}
 	}()
 	envList := strings.Join(envNames, " ")
@@ -373,29 +373,10 @@ func CheckValues(prop string, c *ValueCase, st *Stats) (*Violation, *ValueResult
 		anyCliErr = anyCliErr || e.cliErr
 	}
 	var out Outcome
-	var hs []vHolder
 	var got [][]interface{}
 	var gotSet []bool
 	Begin(prop, "values", c)
-	WithSwap(&out, func() {
-		app := cli.App("app", "")
-		app.ErrorHandling = flag.ContinueOnError
-		nopt := 0
-		for i := range c.Cs {
-			hs = append(hs, declareValue(app, i, &c.Cs[i], &nopt))
-		}
-		app.Spec = spec
-		app.Action = func() {
-			out.Accept = true
-			for _, h := range hs {
-				got = append(got, h.get())
-				gotSet = append(gotSet, *h.set)
-			}
-		}
-		if err := app.Run(append([]string{"app"}, argv...)); err != nil {
-			out.HasErr, out.Err = true, err.Error()
-		}
-	})
+	WithSwap(&out, func() { got, gotSet = RunValuesInner(&out, c) })
 	End()
 	ctx := fmt.Sprintf("spec %q argv %q containers %s", spec, argv, describeContainers(c))
 	if out.Panic != "" || out.Exit != nil {
@@ -435,6 +416,30 @@ func CheckValues(prop string, c *ValueCase, st *Stats) (*Violation, *ValueResult
 		st.Class("source:" + e.src)
 	}
 	return nil, res
+}
+
+// RunValuesInner builds and runs the app of a value case without touching the package level streams.
+func RunValuesInner(out *Outcome, c *ValueCase) (got [][]interface{}, gotSet []bool) {
+	spec, argv := valueSpecArgv(c)
+	var hs []vHolder
+	app := cli.App("app", "")
+	app.ErrorHandling = flag.ContinueOnError
+	nopt := 0
+	for i := range c.Cs {
+		hs = append(hs, declareValue(app, i, &c.Cs[i], &nopt, c.EnvPrefix))
+	}
+	app.Spec = spec
+	app.Action = func() {
+		out.Accept = true
+		for _, h := range hs {
+			got = append(got, h.get())
+			gotSet = append(gotSet, *h.set)
+		}
+	}
+	if err := app.Run(append([]string{"app"}, argv...)); err != nil {
+		out.HasErr, out.Err = true, err.Error()
+	}
+	return
 }
 
 func kindName(vc *VContainer) string {
